@@ -240,7 +240,7 @@ def _cost_key(spec):
 
 
 def shards(tier, seed):
-    # NB the number of shards is kept well below 40 per pool worker (the pool recycles workers after 40 tasks)
+    # NB every shard runs in a fresh forked process (engine.runner)
     target_ms = 7000.0 if tier == 'quick' else 40000.0
     out = []
     small = []
